@@ -167,6 +167,11 @@ def run_check(prop, tier="quick", seed=0, replay=None):
         broken += [f"transgen: {b}" for b in transgen.regenerate()]
     except Exception as e:
         broken.append(f"transgen failed: {e}")
+    try:
+        from . import transgen2
+        broken += [f"transgen2: {b}" for b in transgen2.regenerate()]
+    except Exception as e:
+        broken.append(f"transgen2 failed: {e}")
     if hasattr(prop, "pregen"):
         try:
             broken += prop.pregen()
